@@ -59,6 +59,11 @@ type Params struct {
 	TaprootHeight uint32 // 0 = never
 	GenesisTime   uint32
 	GenesisHash   [32]byte
+	// AllowMinDifficulty is fPowAllowMinDifficultyBlocks (testnet3 / testnet4): a block more than 20 minutes after
+	// its parent may carry the proof-of-work limit as its target.
+	AllowMinDifficulty bool
+	// BIP94 is enforce_BIP94 (testnet4): a retarget starts from the target of the period's first block.
+	BIP94 bool
 }
 
 // ---------------------------------------------------------------------------------------------
@@ -177,14 +182,33 @@ func (i *Index) MedianTimePast() uint32 {
 	return ts[len(ts)/2]
 }
 
-// NextWorkRequired is GetNextWorkRequired for a chain without the testnet min-difficulty rule.  The
+// NextWorkRequired is GetNextWorkRequired for a chain without the testnet min-difficulty rule.
+func NextWorkRequired(parent *Index, p *Params) uint32 {
+	q := *p
+	q.AllowMinDifficulty = false
+	return NextWorkRequiredAt(parent, &q, 0)
+}
+
+// NextWorkRequiredAt is GetNextWorkRequired (pow.cpp) for a block with timestamp ts after parent.  The
 // product is computed in unbounded integers (identical to Core wherever Core's 256-bit product does
 // not overflow, i.e. for every limit <= 2^232).
-func NextWorkRequired(parent *Index, p *Params) uint32 {
+func NextWorkRequiredAt(parent *Index, p *Params, ts uint32) uint32 {
 	if parent.Parent == nil {
 		return p.PowLimitBits
 	}
 	if (parent.Height+1)%RetargetInterval != 0 {
+		if p.AllowMinDifficulty {
+			// more than 2 x 10 minutes after the parent: a min-difficulty block is allowed (and required)
+			if int64(ts) > int64(parent.Header.Time)+2*TargetSpacing {
+				return p.PowLimitBits
+			}
+			// otherwise: the target of the last block that did not use the exception
+			i := parent
+			for i.Parent != nil && i.Height%RetargetInterval != 0 && i.Header.Bits == p.PowLimitBits {
+				i = i.Parent
+			}
+			return i.Header.Bits
+		}
 		return parent.Header.Bits
 	}
 	first := parent.Ancestor(parent.Height - (RetargetInterval - 1))
@@ -196,6 +220,9 @@ func NextWorkRequired(parent *Index, p *Params) uint32 {
 		span = TargetTimespan * 4
 	}
 	t, _, _ := SetCompact(parent.Header.Bits)
+	if p.BIP94 {
+		t, _, _ = SetCompact(first.Header.Bits)
+	}
 	t.Mul(t, big.NewInt(span))
 	t.Div(t, big.NewInt(TargetTimespan))
 	if t.Cmp(p.PowLimit) > 0 {
@@ -221,7 +248,7 @@ func CheckHeader(h *wire.Header, parent *Index, p *Params, now int64) error {
 	if !CheckProofOfWork(h.Hash(), h.Bits, p.PowLimit) {
 		return errors.New("high-hash")
 	}
-	if h.Bits != NextWorkRequired(parent, p) {
+	if h.Bits != NextWorkRequiredAt(parent, p, h.Time) {
 		return errors.New("bad-diffbits")
 	}
 	if h.Time <= parent.MedianTimePast() {
